@@ -1,5 +1,5 @@
 import os, sys, itertools, re, json
-from vf import Check, Stream, first_diff, build_harness, build_libnstd, run_exe_on_cases, sh, VERIF, BUILD, REPO, log
+from vf import Check, Stream, TieBroken, first_diff, build_harness, build_libnstd, run_exe_on_cases, sh, VERIF, BUILD, REPO, log
 
 NV = 6
 FLAVS = ('str', 'var', 'ptr', 'xml')
@@ -503,6 +503,95 @@ def nest_alphabet(nv=2, maxk=2, raw=True):
                         al.append('assignraw %d %d %d %d' % (d, dk, s_, sk))
     return al
 
+# ---- the mutating entry points, enumerated from the headers ---------------------------------------------
+# every non-const, non-static member function (constructors and destructor aside) of the three value-handle classes, with the op
+# that drives it.  gen_tables() reads the headers of the tree under test: a member that is not in this table (or one that
+# disappeared) breaks the tie between the op language and the code (reported as no-failing-input-found).
+ENTRY_POINTS = {
+    'String': {
+        'append(const String&)': 'appends', 'append(const char)': 'write', 'append(const char*,usize)': 'appendp / appendself', 'attach(const char*,usize)': 'attach (strx)',
+        'clear()': 'reset', 'detach()': 'detach', 'detach(usize,usize)': 'private: through every modifier', 'join(const List<String>&,char)': 'join (strx)',
+        'operator char*()': 'charptr', 'operator const char*()': 'appendself / constptr (strx)', 'operator+=(char)': 'pluseqc', 'operator+=(const String&)': 'pluseq',
+        'operator=(const String&)': 'assign / assignlit (strx)', 'prepend(const String&)': 'prepends', 'prepend(const char*,usize)': 'prependp',
+        'printf(const char*,...)': 'printf / printfself (strx)', 'replace(char,char)': 'replace', 'replace(const String&,const String&)': 'replacess (strx)',
+        'reserve(usize)': 'reserve', 'resize(usize)': 'resize', 'toLowerCase()': 'tolower', 'toUpperCase()': 'toupper', 'trim(const char*)': 'trim'},
+    'Variant': {
+        'clear()': 'reset', 'operator=(bool)': 'assignscalar 0', 'operator=(double)': 'assignscalar 1', 'operator=(int)': 'assignscalar 2', 'operator=(uint)': 'assignscalar 3',
+        'operator=(int64)': 'assignscalar 4', 'operator=(uint64)': 'assignscalar 5', 'operator=(const Variant&)': 'assign',
+        'operator=(const Array<Variant>&)': 'assignval / retype (kind array)', 'operator=(const HashMap<String,Variant>&)': 'assignval / retype (kind map)',
+        'operator=(const List<Variant>&)': 'assignval / retype (kind list)', 'operator=(const String&)': 'assignval / retype (kind string)', 'swap(Variant&)': 'vswap',
+        'toArray()': 'write / detach / retype', 'toList()': 'write / detach / retype', 'toMap()': 'write / detach / retype', 'toString()': 'write / detach / retype'},
+    'Xml::Variant': {'clear()': 'reset', 'operator=(const String&)': 'assignval / retype', 'operator=(const Variant&)': 'assign', 'toElement()': 'write / detach / retype'},
+}
+
+
+def class_body(src, cls):
+    m = re.search(r'\bclass\s+%s\b[^;{]*\{' % cls, src)
+    i = m.end(); d = 1; j = i
+    while d:
+        c = src[j]
+        d += (c == '{') - (c == '}')
+        j += 1
+    return src[i:j - 1]
+def members(src, cls):
+    """non-const, non-static member functions (no constructors / destructor) declared in the class: set of `name(params)`"""
+    src = re.sub(r'//[^\n]*', '', src); src = re.sub(r'/\*.*?\*/', '', src, flags=re.S)
+    body = class_body(src, cls)
+    out = []; i = 0; head = ''
+    while i < len(body):
+        c = body[i]
+        if c == '{':
+            d = 1; i += 1
+            while d:
+                d += (body[i] == '{') - (body[i] == '}'); i += 1
+            out.append(head); head = ''
+            continue
+        if c == ';':
+            out.append(head); head = ''
+        elif c == ':' and re.search(r'\b(public|private|protected)\s*$', head):
+            head = ''
+        else:
+            head += c
+        i += 1
+    res = set()
+    for h in out:
+        h = ' '.join(h.split())
+        if '(' not in h or re.match(r'(struct|class|enum|union|friend|typedef)\b', h):
+            continue
+        h = re.sub(r'^template\s*<[^>]*>\s*', '', h)
+        m = re.match(r'(.*?)(operator\s*[^(]+|operator\s*\(\)|~?\w+)\s*\((.*)$', h)
+        if not m:
+            continue
+        pre, name, rest = m.group(1), ' '.join(m.group(2).split()), m.group(3)
+        d = 1; k = 0
+        while d and k < len(rest):
+            d += (rest[k] == '(') - (rest[k] == ')'); k += 1
+        params, tail = rest[:k - 1], rest[k:]
+        tail = tail.split(':')[0]
+        if re.match(r'\s*static\b', pre) or name == cls or name.startswith('~') or re.search(r'\bconst\b', tail):
+            continue
+        params = re.sub(r'\s*=\s*[^,]+', '', params)                    # default arguments
+        params = ','.join(re.sub(r'\s*\b\w+$', '', p.strip()) if re.search(r'[\s&*]\w+$', p.strip()) and not re.fullmatch(r'(const\s+)?\w+', p.strip()) else p.strip() for p in params.split(',')) if params.strip() else ''
+        res.add('%s(%s)' % (name, re.sub(r'\s+', ' ', params)))
+    return res
+
+
+def entry_points_table():
+    inc = os.path.join(REPO, 'include', 'nstd')
+    found = {'String': members(open(os.path.join(inc, 'String.hpp')).read(), 'String'),
+             'Variant': members(open(os.path.join(inc, 'Variant.hpp')).read(), 'Variant')}
+    x = re.sub(r'//[^\n]*', '', open(os.path.join(inc, 'Document', 'Xml.hpp')).read())
+    found['Xml::Variant'] = members(class_body(x, 'Xml'), 'Variant')
+    bad = []
+    for cls, tab in ENTRY_POINTS.items():
+        for m in sorted(found[cls] - set(tab)):
+            bad.append('%s::%s is a non-const member no op drives' % (cls, m))
+        for m in sorted(set(tab) - found[cls]):
+            bad.append('%s::%s (driven by `%s`) is no longer declared' % (cls, m, tab[m]))
+    if bad:
+        raise TieBroken('mutating entry points of the headers differ from the op language: ' + '; '.join(bad))
+    return 'entry points: ' + ', '.join('%s %d' % (c, len(t)) for c, t in ENTRY_POINTS.items())
+
 
 class C09(Check):
     id = 'C09'
@@ -563,6 +652,7 @@ class C09(Check):
                   'write accessor (value assignment only), element payloads no value assignment. A Variant holding a scalar (bool, double, int, uint, int64, uint64: data inside the handle, no payload) '
                   'is observed as a handle without payload (`-`), whatever the scalar; in kind string a scalar is cleared right after it was assigned (toString() would turn it into text). '
                   'String cases use the characters a b c A B C and space for the markers 1-7; a call that would make a text longer than 100 characters is skipped on both sides. '
+                  'The op language is tied to the headers of the tree under test: every non-const, non-static member function of String, Variant and Xml::Variant (constructors / destructor aside) is enumerated from the header and must be in the table ENTRY_POINTS of this check with the op that drives it (a new or vanished member is reported as a break of the tie, no-failing-input-found). '
                   'Scheduling points of the baton scheduler: before and after every __sync / __atomic read-modify-write, compare-and-swap and exchange builtin (only the add/sub ones are trace events). Handles stored inside payloads are modelled for '
                   'RefCount::Ptr (machine RcNest: a pointee type with a Ptr member, locations <variable, depth>, sequential only); its reference object is RcNest.pstep (a pointer graph without counters in which, after every operation, the objects no handle refers to are destroyed, '
                   'repeatedly; proved independent of the order of destruction), refined by the Model over whole histories; swap of member handles and handles travelling '
@@ -586,6 +676,12 @@ class C09(Check):
             'non-trivial when at least two threads execute a counting call (copy, assign, drop, write, reserve, reset). distinct = distinct op text')
     assumptions = ['sequential consistency of the __sync_* builtins and of the plain reads of `ref` (concurrent clause)',
                    'operator new / delete[] behave as allocation and release of disjoint blocks']
+
+    def gen_tables(self):
+        try:
+            return [entry_points_table()]
+        except (OSError, AttributeError, IndexError) as e:        # header missing or not parseable
+            raise TieBroken('cannot enumerate the mutating entry points from the headers: %r' % (e,))
 
     def __init__(self):
         Check.__init__(self)
@@ -835,9 +931,11 @@ class C09(Check):
             for kind in KINDS[f]:
                 al = mut_alphabet(f, kind)
                 notes.append('%s %s: %d' % (f, kind, len(al)))
-                for d in (('4267', '71') if thorough else ('4267',)):
-                    for tup in itertools.product(al, repeat=mdepth):
-                        cases.append(['@%s %s' % (f, kind), 'create 0 ' + d, 'copy 1 0'] + list(tup))
+                for tup in itertools.product(al, repeat=mdepth):
+                    cases.append(['@%s %s' % (f, kind), 'create 0 4267', 'copy 1 0'] + list(tup))
+                if thorough:
+                    for tup in itertools.product(al, repeat=2):
+                        cases.append(['@%s %s' % (f, kind), 'create 0 71', 'copy 1 0'] + list(tup))
         out.append(Stream('exh_mut', cases, exhaustive=False,
                           note='every sequence of %d mutating ops / destroy / copy over two handles that share a payload (letters: %s)' % (mdepth, '; '.join(notes))))
         # handles stored inside payloads
